@@ -168,6 +168,17 @@ def _check_on(S, case, rebuild=True):
     from edgegraph.traversal import depthfirst as D
 
     verdict, R = S.expectation()
+    if verdict == "raise":
+        # the reference says NotImplementedError (an unknown-class link is met under LNK_UNKNOWN_ERROR): the SAME call
+        # repeated must fail the same way - not answer with whatever the failed call had got to
+        for name, fn in (("bft", B.bft), ("dft_recursive", D.dft_recursive), ("dft_iterative", D.dft_iterative)):
+            for attempt in (1, 2, 3):
+                try:
+                    got = S.idx(fn(S.uni, S.vs[S.start], **S.kw()))
+                except NotImplementedError:
+                    continue
+                raise Violation("missing-NotImplementedError", f"{name}, attempt {attempt} of the same call: returned {got} although an unknown-class link is met under LNK_UNKNOWN_ERROR (caching={case.get('cache')})")
+        return dict(nt=False, classes=["raises-NotImplementedError-every-time"])
     if verdict != "ok":
         return dict(nt=False, classes=["skipped:" + verdict])
     n = len(S.vs)
